@@ -144,6 +144,18 @@ func buildPlan(id string, pinned map[string]string, tier string) *Plan {
 			"assembly E2 kernels on amd64 (e2_amd64.s): outside (C09)"}
 		p.Note = "Every tower operation under contract equals the product/sum computed by schoolbook convolution in R[X]/(X^k - nr) from the documented polynomials; sparse products equal the generic product applied to the operand with the documented zero/one coordinates; all alias partitions, including (where the contract says 'option interior') operands pointing into the receiver."
 		return p
+	case "C10":
+		p := &Plan{ID: id}
+		for _, c := range fftCfgs("/repo") {
+			p.Units = append(p.Units, Unit{Pkg: c.Pkg, Tags: "purego", Groups: []string{"kernels"}, Deps: []string{c.Field + ":vector", c.Field + ":field"}})
+		}
+		p.Trusted = []string{"ring layer over the field's Element (C01 contracts); Vector.Mul through its contract (C01, portable build); Element.Exp is an uninterpreted power at the ring layer",
+			"twseq(t, x, n) = t * x^n is axiomatised by its two defining equations (a total function by recursion on n)"}
+		p.NotCovered = []string{"the statement of the property itself: that the composition of these kernels over log2(n) stages, with the documented bit-reversed ordering, the coset scaling, the goroutine split and every option, is the discrete Fourier transform (Cooley-Tukey induction over a goroutine-split recursion) is NOT decided by these contracts",
+			"unrolled kernels kerDIFNP_32 / kerDITNP_256 / ..., AVX-512 kernels of the 31-bit fields, difFFT / ditFFT recursion, FFT / FFTInverse entry points, BitReverse (cobra variants), Domain construction and serialisation: not under contract",
+			"default build: Vector.Mul is an assembly routine on amd64, so the kernels with a twiddle table are verified for the portable build only"}
+		p.Note = "Partial: the four radix-2 butterfly kernels of every FFT package (with and without a twiddle table, decimation in time and in frequency) perform exactly the butterfly a[i], a[i+m] <- a[i] + a[i+m], (a[i] - a[i+m]) t_i (resp. a[i] + t_i a[i+m], a[i] - t_i a[i+m]) on every pair of the requested range with t_0 = 1, t_i = twiddles[i] or at*w^(i-start), touch nothing else, and never index out of range under the stated size preconditions; precomputeExpTableChunk fills table[j] = w^power * w^j. A change inside a kernel that alters any output entry fails a named obligation."
+		return p
 	case "C11":
 		p := &Plan{ID: id}
 		for _, pk := range kzgPkgs("/repo") {
